@@ -146,9 +146,13 @@ def run(tier, seed, replay=None):
             texts.append("\n".join(open(f, encoding="utf-8", errors="replace").read() for f in files))
         lines_ = ["solve " + t.encode("utf-8").hex() for t in texts]
         examples = {"problems": len(tests), "outcomes": {}}
-        for cfg in (["hadd-dbg-ci"] if tier == "quick" else ["hadd-dbg-ci", "hmax-dbg", "hmax-dbg-ci", "hadd-dbg"]):
+        for cfg in (["hadd-dbg-ci", "hmax-dbg"] if tier == "quick" else ["hadd-dbg-ci", "hmax-dbg", "hmax-dbg-ci", "hadd-dbg"]):
             exe = e2e.harness(cfg)
-            outs, _ = vlib.run_impl_parallel(vlib.impl_cmd(exe, ["60"]), lines_, timeout=3600)
+            # one process per example: the search follows pointer-hash orders, so what an example does must not depend on
+            # which other examples were solved before it in the same process
+            from concurrent.futures import ThreadPoolExecutor
+            with ThreadPoolExecutor(vlib.NCPU) as ex_:
+                outs = [r[0][0] for r in ex_.map(lambda ln: vlib.run_lines(vlib.impl_cmd(exe, ["60"]), [ln], None, 600), lines_)]
             st = {}
             for (name, files), o in zip(tests, outs):
                 v = e2e.verdict(o)
